@@ -22,6 +22,11 @@ CLAIMED = {
    note="Trusted: ring-layer interpretation of lower-layer methods by their own contracts; Z-lifting; documented tower polynomials. Not under contract: Inverse/Div/Sqrt/Exp/Frobenius/cyclotomic squarings/torus compression, bw6 towers, small-field extensions; amd64 E2 assembly kernels are assumed contracts.",
    technique="contract-based deductive verification at an abstract-ring layer (go/ssa symbolic execution yields polynomials; SMT proves the polynomial identities)",
    design="§5 C06"),
+ "C07": dict(
+   text="Deductive proof of acceptance-implies-check clauses for the G1 point decoders (setBytes, unsafeSetCompressedBytes) of every curve with the generated decoder: nil error only if the flag pattern is valid, coordinates decoded canonically, infinity encodings are all-zero, raw points passed the subgroup test or (when disabled) the on-curve test, compressed points have Y = +-sqrt(X^3+b) with the sign selected by the flag and passed the subgroup test when enabled; byte counts match; every slice/index operation is a discharged bounds obligation (short input gives an error, never a panic).",
+   note="Trusted: coordinate decoders opaque at this layer (proved under C08), IsInSubGroup assumed pure, Sqrt assumed to return a root or nil. Not under contract: G2 decoders, encoders and round trips, streaming Encoder/Decoder, secp256k1 and twisted-Edwards decoders. One open known finding (stark-curve infinity payload).",
+   technique="contract-based deductive verification: path-split symbolic execution with ghost capture of callee results at call-site cut points (acceptance-implies-check obligations), bounds obligations",
+   design="§5 C07"),
  "C08": dict(
    text="Deductive proof that the byte-order codecs (BigEndian/LittleEndian Element and PutElement, Bytes, SetBytesCanonical), Montgomery conversions (toMont/fromMont/Bits), integer setters (SetUint64/SetInt64/NewElement), Uint64/IsUint64/FitsOnOneWord, Cmp and LexicographicallyLargest of all 23 field packages meet contracts over the regular value reg(v); decoders accept exactly encodings below q; round-trip laws are lemma functions verified modularly from the encoder and decoder contracts.",
    note="Trusted: as C01 plus encoding/binary axioms and the definition of reg (existence from gcd(R,q)=1, q odd checked). Not under contract: SetBytes/SetBigInt/BigInt/Text/SetString/JSON (math/big, strconv) and the vector readers/writers.",
